@@ -387,7 +387,7 @@ def h_callback(ctx, d, n, I):
     ctx.claim('default_info_carries_nothing_over', all(bool(ctx.all_eq(a, b)) for a, b in zip(Ya, Yb)))
 
 
-def h_func(ctx, m, n, sym_points=False, fixed_cores=False, y_last=None):
+def h_func(ctx, m, n, sym_points=False, fixed_cores=False, y_last=None, n_max=None):
     """Functional version (als_func), d = 2, rank 1, Chebyshev basis of size n:
     every core update is the exact minimiser of the regularised objective over
     the retained degrees (spy on als_func._optimize_core), shape and ranks are
@@ -445,7 +445,7 @@ def h_func(ctx, m, n, sym_points=False, fixed_cores=False, y_last=None):
     fmod._optimize_core = spy
     info = {}
     try:
-        Y = _with_stubs(ctx, lambda: teneva.als_func(X, y, A0, nswp=1, e=None, info=info, lamb=lamb))
+        Y = _with_stubs(ctx, lambda: teneva.als_func(X, y, A0, nswp=1, e=None, info=info, lamb=lamb, n_max=n_max))
     finally:
         fmod._optimize_core = real
     ctx.claim('well_formed', well_formed(Y, [G.shape[1] for G in Y]))
@@ -525,6 +525,8 @@ def instances(tier):
     for yl in (1, -1, 0):
         out.append({'func': 'h_func', 'params': {'m': 2, 'n': 2, 'fixed_cores': True, 'y_last': yl},
                     'opts': {'generic_divisors': True}})
+    out.append({'func': 'h_func', 'params': {'m': 2, 'n': 2, 'fixed_cores': True, 'y_last': 1, 'n_max': 2},
+                'opts': {'generic_divisors': True}})
     if not quick:
         # symbolic initial cores / three samples: heavy (2x2 ridge systems with symbolic data, truncation forks)
         out.append({'func': 'h_func', 'params': {'m': 3, 'n': 2, 'fixed_cores': True, 'y_last': 1}, 'opts': {'generic_divisors': True}})
